@@ -219,7 +219,7 @@ class StdModel:
 
     FUN_MAP = {
         'memcpy': 'memcpy', 'std::memcpy': 'memcpy', 'memset': 'memset', 'std::memset': 'memset',
-        'std::strlen': 'strlen', 'strlen': 'strlen', 'abort': 'xv_abort', 'std::abort': 'xv_abort',
+        'std::strlen': 'xv_strlen', 'strlen': 'xv_strlen', 'abort': 'xv_abort', 'std::abort': 'xv_abort',
         'std::terminate': 'xv_abort',
     }
 
@@ -316,7 +316,7 @@ class StdModel:
             if nm == 'compare':
                 return 'xv_tr_compare_%s(%s, %s, %s)' % (S, a[0], a[1], a[2])
             if nm == 'length':
-                return 'strlen(%s)' % a[0]
+                return 'xv_strlen(%s)' % a[0]
             if nm == 'eq':
                 return '(%s == %s)' % (a[0], a[1])
             if nm == 'lt':
